@@ -76,6 +76,8 @@ pub enum Cmd {
     Cat,
     /// `sink`: reads stdin to EOF and traces what it saw
     Sink,
+    /// `stopself`: the process stops itself (SIGSTOP) and goes on when someone continues it
+    StopSelf,
 }
 
 /// Categories of failing commands (docs/src/termination.md "Shell errors").
@@ -493,6 +495,7 @@ impl Printer {
             Cmd::Gen(n) => format!("gen {n}"),
             Cmd::Cat => "cat".into(),
             Cmd::Sink => "sink".into(),
+            Cmd::StopSelf => "stopself".into(),
         }
     }
 }
@@ -977,6 +980,10 @@ impl Eval {
                 st.out += st.inp;
                 st.inp = 0;
                 st.consumed = true;
+                st.status = 0;
+                Ok(())
+            }
+            Cmd::StopSelf => {
                 st.status = 0;
                 Ok(())
             }
